@@ -5,6 +5,7 @@ import (
 	"go/constant"
 	"go/token"
 	"go/types"
+	"os"
 	"strings"
 
 	"golang.org/x/tools/go/ssa"
@@ -66,9 +67,7 @@ type Exec struct {
 	nextObj     int
 	depth       int
 	steps       int
-	pending     []*pendingGo // spawned goroutines not yet run
-	curG        int          // id of running goroutine (0 = main)
-	nextG       int
+	sch         *schedState
 	ghost       map[string]interface{}
 	events      []string // notable events on this path (recovered panics…)
 	gevents     []ghostEvent
@@ -83,14 +82,9 @@ type Exec struct {
 	fnNames map[*ssa.Function]string
 }
 
-type pendingGo struct {
-	id   int
-	fn   *Func
-	args []Value
-	site string
-}
-
 const maxDepth = 150
+
+var traceCalls = os.Getenv("VERIF_TRACE") != ""
 
 func (ex *Exec) where(fr *frame) string {
 	if fr == nil {
@@ -174,12 +168,16 @@ func (ex *Exec) call(caller *frame, f *Func, args []Value, site ssa.Instruction)
 }
 
 func (ex *Exec) callSSA(caller *frame, fn *ssa.Function, args []Value, env []Value) Value {
-	ex.depth++
-	if ex.depth > maxDepth {
+	g := ex.sch.cur
+	g.depth++
+	if g.depth > maxDepth {
 		ex.abort("unwind", "call depth exceeded in "+fn.String())
 	}
-	defer func() { ex.depth-- }()
+	defer func() { g.depth-- }()
 	ex.X.noteFunc(fn)
+	if traceCalls && ex.X.Paths < 2 {
+		fmt.Fprintf(os.Stderr, "TRACE p%d g%d %*s%s\n", ex.X.Paths, ex.sch.cur.id, g.depth, "", fn.String())
+	}
 	fr := &frame{fn: fn, caller: caller, env: make(map[ssa.Value]Value, 16), visits: map[int]int{}}
 	if len(args) != len(fn.Params) {
 		panic(fmt.Sprintf("arity mismatch calling %s: %d vs %d", fn, len(args), len(fn.Params)))
